@@ -39,6 +39,7 @@ type Shape struct {
 	fields []*Shape
 	fnames []string
 	key    string // stable textual key of the type (heap naming)
+	rawSort string // for ghost components that are not Go values
 }
 
 type unsupported struct{ msg string }
@@ -158,6 +159,9 @@ func origKey(n *types.Named) string {
 
 // sorts returns the SMT sorts of the flattened components.
 func (s *Shape) sorts() []string {
+	if s.rawSort != "" {
+		return []string{s.rawSort}
+	}
 	switch s.kind {
 	case KInt, KOpaque, KPtr, KMap, KFunc, KChan:
 		return []string{sInt}
